@@ -13,6 +13,8 @@ Reading guide
   expressions and all dynamic contexts.  Helper lemmas: EPV/Lemmas/SeqFuns*.lean.
 -/
 import EPV.Lemmas.SeqFunsLaws
+import EPV.Lemmas.SeqFunsLazy
+import EPV.Lemmas.SeqFunsSumFree
 namespace EPV.C08
 open EPV.Seq
 
@@ -339,5 +341,120 @@ greater than or equal to every item -/
 theorem max_integers (n : Int) (ns : List Int) :
     ∃ m, fnMinMax true ((n :: ns).map Atom.int) = .ok [.int m] ∧ m ∈ n :: ns ∧ ∀ y ∈ n :: ns, y ≤ m := by
   exact ⟨Spec.extremum (fun x y => decide (x < y)) true n ns, fnMinMax_ints n ns, extremum_int_max n ns⟩
+
+/-! ## the F&O summation, and the outcomes that XPath permits -/
+
+/-- For expressions without fn:sum / fn:avg the evaluator equals the semantics in the plain F&O
+reading (no dependence on the summation algorithm). -/
+theorem eval_eq_sem_fo (e : Expr) (c : Ctx) (h : Spec.usesSum e = false) :
+    eval e c = Spec.sem Spec.foSum e c := by
+  rw [EPV.Seq.eval_eq_sem]; exact Spec.sem_congr Spec.pySum Spec.foSum e c h
+
+/-- test: the hypothesis holds for `for $v1 in $v0 return count(($v1, 1.5))` -/
+example : Spec.usesSum (.forE (.one 1 (.var 0)) (.fn1 .count (.comma (.var 1) (.lit (.dec 15 1))))) = false := by
+  decide
+
+/-- When the strict left-to-right semantics yields a value, the laziest evaluation that XPath
+§2.3.4 permits yields the same value: on such inputs exactly one value is permitted. -/
+theorem lazy_value_of_strict (sm : Spec.Summation) (e : Expr) (c : Ctx) (v : Seq)
+    (h : Spec.sem sm e c = .ok v) : (Spec.lz sm e c).force = .ok v := by
+  rw [Spec.lz_of_sem sm e c v h]; rfl
+
+/-- The strict semantics is one of the permitted outcomes — for every expression and context. -/
+theorem strict_outcome_permitted (sm : Spec.Summation) (e : Expr) (c : Ctx) :
+    Spec.Permitted sm e c (Spec.sem sm e c) := by
+  unfold Spec.Permitted
+  cases h : Spec.sem sm e c with
+  | ok v => exact lazy_value_of_strict sm e c v h
+  | error x => exact Spec.sem_error_mem_codes sm e c x h
+
+/-- The outcome of the evaluator (the transcribed implementation) is always a permitted one. -/
+theorem model_outcome_permitted (e : Expr) (c : Ctx) : Spec.Permitted Spec.pySum e c (eval e c) := by
+  rw [EPV.Seq.eval_eq_sem]; exact strict_outcome_permitted Spec.pySum e c
+
+/-- If no subexpression can raise an error, the only permitted outcome is the value of the
+list model. -/
+theorem unique_outcome_when_error_free (sm : Spec.Summation) (e : Expr) (c : Ctx)
+    (h : Spec.codes sm e c = []) :
+    ∃ v, Spec.sem sm e c = .ok v ∧ ∀ r, Spec.Permitted sm e c r ↔ r = .ok v := by
+  cases hs : Spec.sem sm e c with
+  | error x =>
+    have := Spec.sem_error_mem_codes sm e c x hs
+    rw [h] at this; cases this
+  | ok v =>
+    refine ⟨v, rfl, fun r => ?_⟩
+    have hl := lazy_value_of_strict sm e c v hs
+    cases r with
+    | ok w => simp only [Spec.Permitted, hl, Except.ok.injEq]; exact eq_comm
+    | error x => simp [Spec.Permitted, h]
+
+/-- test: `head((1, exactly-one(())))` — the strict semantics raises FORG0005, the lazy evaluation
+delivers 1; both outcomes are permitted, `(2)` is not. -/
+example :
+    let e := Expr.fn1 .head (.comma (.lit (.int 1)) (.fn1 .exactlyOne .empty))
+    let c : Ctx := { item := none, pos := 1, size := 1, vars := [], doc := [] }
+    Spec.sem Spec.foSum e c = .error .FORG0005 ∧ Spec.Permitted Spec.foSum e c (.ok [.int 1]) ∧
+      Spec.Permitted Spec.foSum e c (.error .FORG0005) ∧ ¬ Spec.Permitted Spec.foSum e c (.ok [.int 2]) ∧
+      ¬ Spec.Permitted Spec.foSum e c (.error .XPTY0004) := by decide
+
+/-- the predicate of the F&O definition of fn:subsequence as an expression:
+`round(a) le position() and position() lt round(a) + round(b)` -/
+def subsequencePredicate (a b : D) : Expr :=
+  .andE (.cmp .le (.fn1 .round (.lit (.dbl a))) .position)
+        (.cmp .lt .position (.arith .add (.fn1 .round (.lit (.dbl a))) (.fn1 .round (.lit (.dbl b)))))
+
+theorem ofInt_small (p : Nat) (hp : p ≤ 2 ^ 53) : D.ofInt (Int.ofNat p) = Spec.ofPos p := by
+  simp [D.ofInt, Spec.ofPos, hp]
+
+theorem sem_subsequencePredicate (sm : Spec.Summation) (a b : D) (c : Ctx) (hp : c.pos ≤ 2 ^ 53) :
+    Spec.sem sm (subsequencePredicate a b) c =
+      .ok [.bool (Spec.leD (Spec.roundD a) (Spec.ofPos c.pos) &&
+        Spec.ltD (Spec.ofPos c.pos) (D.add (Spec.roundD a) (Spec.roundD b)))] := by
+  have h1 : D.ofInt (c.pos : Int) = Spec.ofPos c.pos := ofInt_small c.pos hp
+  simp only [subsequencePredicate, Spec.sem, Spec.applyFn1, Spec.fnRound, Except.bind, bind, Spec.atMostOne,
+    List.map, Spec.atomized, Spec.compareAtoms, Spec.eqAtom?, Spec.ltAtom?, Spec.kind, Spec.numEq, Spec.numLt,
+    Spec.isDouble, Spec.toDouble, Bool.true_or, Bool.or_true, if_true, Spec.ebv, pure, Except.pure,
+    Spec.numericOperand, Spec.arith, h1, beq_self_eq_true]
+  simp only [Spec.leD]
+  cases Spec.ltD (Spec.roundD a) (Spec.ofPos c.pos) <;> cases Spec.eqD (Spec.roundD a) (Spec.ofPos c.pos) <;>
+    cases Spec.ltD (Spec.ofPos c.pos) ((Spec.roundD a).add (Spec.roundD b)) <;> simp
+
+theorem keepWhere_congr {β : Type} (f g : β → Except Err Bool) (l : List β) (h : ∀ t ∈ l, f t = g t) :
+    Spec.keepWhere f l = Spec.keepWhere g l := by
+  induction l with
+  | nil => rfl
+  | cons b bs ih =>
+    simp only [Spec.keepWhere, h b List.mem_cons_self, ih (fun t ht => h t (List.mem_cons_of_mem _ ht))]
+
+theorem positions_le {α : Type} (s : List α) : ∀ t ∈ Spec.positions s, t.2 ≤ s.length := by
+  intro t ht
+  unfold Spec.positions at ht
+  have := List.mem_zipIdx ht
+  omega
+
+/-- **The equivalence of the property statement, for the evaluator.**
+`subsequence(S, a, b)` = `S[round(a) le position() and position() lt round(a) + round(b)]` for
+every expression `S`, all doubles `a`, `b` and every context (for sequences of at most 2^53 items,
+where positions are exact as xs:double). -/
+theorem subsequence_equiv_filter_expr (S : Expr) (a b : D) (c : Ctx)
+    (hlen : ∀ s, eval S c = .ok s → s.length ≤ 2 ^ 53) :
+    eval (.fn3 .subseq S (.lit (.dbl a)) (.lit (.dbl b))) c = eval (.filter S (subsequencePredicate a b)) c := by
+  rw [EPV.Seq.eval_eq_sem, EPV.Seq.eval_eq_sem]
+  rw [EPV.Seq.eval_eq_sem] at hlen
+  simp only [Spec.sem, bind, Except.bind]
+  cases hs : Spec.sem Spec.pySum S c with
+  | error e => rfl
+  | ok s =>
+    have hl := hlen s hs
+    simp only [Spec.applyFn3, Spec.asRoundedDouble, Except.bind, Except.map]
+    rw [keepWhere_congr _ (fun t : Atom × Nat => (Except.ok (Spec.leD (Spec.roundD a) (Spec.ofPos t.2) &&
+            Spec.ltD (Spec.ofPos t.2) (D.add (Spec.roundD a) (Spec.roundD b))) : Except Err Bool)) (Spec.positions s)
+        (by
+          intro t ht
+          have hp : t.2 ≤ 2 ^ 53 := Nat.le_trans (positions_le s t ht) hl
+          rw [sem_subsequencePredicate Spec.pySum a b _ hp]
+          simp [Spec.predicateTruth, Spec.kind, Spec.ebv])]
+    rw [keepWhere_pure]
+    rfl
 
 end EPV.C08
